@@ -6,6 +6,8 @@ import (
 	"os"
 	"path/filepath"
 	"sort"
+	"strings"
+	"time"
 )
 
 type PropDef struct {
@@ -710,6 +712,47 @@ func init() {
 		},
 		Bounds: func(tier string) map[string]interface{} { return map[string]interface{}{} },
 		Covers: []string{"segmenter compared", "resegment compared", "combine compared", "fragmentify compared"}, RequireCovers: true,
+	}
+	propDefs["C20"] = &PropDef{
+		ID:       "C20",
+		Patterns: []string{"./mp4"},
+		InitPkgs: []string{mod + "/mp4", mod + "/aac", mod + "/avc", mod + "/hevc"},
+		Level:    "other",
+		Race:     true,
+		Solver:   "cvc5",
+		Explain:  "bounded symbolic non-interference check: the library starts no goroutine and takes no lock, so two goroutines working on distinct structures can only interfere through memory both can reach (package-level state, the shared input slice). Every operation is executed symbolically under a write-set monitor: a feasible store into the shared input buffer or into an object reachable from a package-level variable is a violation, replayed natively as two goroutines under the race detector.",
+		Instances: func(tier string, L *Loaded) []*HarnessCfg {
+			var r []*HarnessCfg
+			for _, ko := range [][2]string{{"clear", "decodeSR+info+encode"}, {"clear", "decode+info+encode"}, {"mfra", "decodeSR+info+encode"}, {"mfra", "decode+info+encode"},
+				{"cenc", "decodeSR+decrypt"}, {"cenc", "decode+decrypt"}, {"cbcs", "decodeSR+decrypt"}, {"cbcs", "decode+decrypt"}, {"cenc", "decodeSR+info+encode"}} {
+				c := inst(mod+"/mp4", "VerifC20", ko[0], ko[1])
+				c.WriteMon = true
+				c.PanicIsViol = false
+				c.MaxWallS = 300
+				r = append(r, c)
+			}
+			return r
+		},
+		Bounds: func(tier string) map[string]interface{} {
+			return map[string]interface{}{"inputs": "constructor-built fragmented files (clear, with mfra, cenc/cbcs encrypted audio with symbolic payload)"}
+		},
+		Covers: []string{"write set checked"}, RequireCovers: true,
+		Validate: 1,
+		ConfirmWrite: func(nat *Native, w *Witness, file string) (bool, string) {
+			res, status, err := nat.replay(w.Pkg, file, 120*time.Second, 0)
+			if err != nil {
+				return false, err.Error()
+			}
+			if strings.Contains(status, "DATA RACE") {
+				w.Msg += " | native: the race detector reports a data race between the two goroutines"
+				return true, ""
+			}
+			if r := res[file]; r != nil && strings.HasPrefix(r.Outcome, "assert:") {
+				w.Msg += " | native: " + r.Outcome
+				return true, ""
+			}
+			return false, "native two-goroutine run showed no race: " + firstLines(status, 3)
+		},
 	}
 	propDefs["C13"] = &PropDef{
 		ID:       "C13",
